@@ -35,15 +35,31 @@ type ArgDef struct {
 type FSel struct {
 	Name string `json:"name"`
 	Sel  []FSel `json:"sel"`
+	// Args: literal arguments of a required field, e.g. @requires(fields: "price(cur: \"EUR\")")
+	Args []FSArg `json:"args"`
+}
+
+// FSArg is one literal argument of a field-set entry (same shape as a document argument).
+type FSArg struct {
+	Name string `json:"name"`
+	Val  Val    `json:"val"`
 }
 
 func FieldSetString(sel []FSel) string {
 	parts := make([]string, 0, len(sel))
 	for _, s := range sel {
+		name := s.Name
+		if len(s.Args) > 0 {
+			as := make([]string, len(s.Args))
+			for i, a := range s.Args {
+				as[i] = a.Name + ": " + fieldSetLiteral(a.Val)
+			}
+			name += "(" + strings.Join(as, ", ") + ")"
+		}
 		if len(s.Sel) == 0 {
-			parts = append(parts, s.Name)
+			parts = append(parts, name)
 		} else {
-			parts = append(parts, s.Name+" { "+FieldSetString(s.Sel)+" }")
+			parts = append(parts, name+" { "+FieldSetString(s.Sel)+" }")
 		}
 	}
 	return strings.Join(parts, " ")
@@ -271,4 +287,25 @@ func printType(sb *strings.Builder, td *TypeDef, directives bool, shareable func
 func IsLeafType(types []TypeDef, name string) bool {
 	td := FindType(types, name)
 	return td == nil || (td.Kind != "OBJECT" && td.Kind != "INTERFACE" && td.Kind != "UNION")
+}
+
+// fieldSetLiteral prints a literal argument value inside a field-set string.
+func fieldSetLiteral(v Val) string {
+	switch v.T {
+	case "e":
+		return v.S
+	case "l":
+		parts := make([]string, len(v.L))
+		for i, x := range v.L {
+			parts[i] = fieldSetLiteral(x)
+		}
+		return "[" + strings.Join(parts, ", ") + "]"
+	case "o":
+		parts := make([]string, len(v.L))
+		for i, x := range v.L {
+			parts[i] = v.K[i] + ": " + fieldSetLiteral(x)
+		}
+		return "{" + strings.Join(parts, ", ") + "}"
+	}
+	return v.Plain()
 }
